@@ -1,0 +1,102 @@
+//go:build verif
+// +build verif
+
+package scanner
+
+import (
+	"expvar"
+	"fmt"
+	"os"
+	"runtime"
+	"strconv"
+)
+
+// Runtime-verification hooks (build tag "verif"). They never change what the
+// lexer does; they count the lexer's non-advancing work per Lexer value and
+// turn an endless loop into a deterministic panic:
+//
+//	verif: step budget exceeded kind=<kind> cs=<machine state> steps=<n> len=<input length>
+//
+// VERIF_YIELD=<k>  calls runtime.Gosched() every k steps (widens interleavings)
+// VERIF_STATS=1    publishes global counters through expvar (never use with -race)
+
+const (
+	verifStepToken = iota
+	verifStepCall
+	verifStepRet
+	verifStepUnget
+	verifStepKinds
+)
+
+var verifStepNames = [verifStepKinds]string{"token", "call", "ret", "unget"}
+
+type verifState struct {
+	steps [verifStepKinds]int
+	total int
+}
+
+var (
+	verifYield     int
+	verifStats     bool
+	verifStatSteps *expvar.Map
+	verifStatMax   *expvar.Int
+	verifStatAbort *expvar.Int
+	verifStatLexer *expvar.Int
+)
+
+func init() {
+	if n, err := strconv.Atoi(os.Getenv("VERIF_YIELD")); err == nil && n > 0 {
+		verifYield = n
+	}
+	if os.Getenv("VERIF_STATS") == "1" {
+		verifStats = true
+		verifStatSteps = expvar.NewMap("verif_scanner_steps")
+		verifStatMax = expvar.NewInt("verif_scanner_max_excess")
+		verifStatAbort = expvar.NewInt("verif_scanner_budget_aborts")
+		verifStatLexer = expvar.NewInt("verif_scanner_lexers")
+		verifStatMax.Set(-1 << 62)
+	}
+}
+
+// VerifBudget is the number of hook steps a lexer may take on an input of n bytes.
+func VerifBudget(n int) int {
+	return 8*n + 64
+}
+
+// VerifLen reports the input length (used by the parser-side hook).
+func (lex *Lexer) VerifLen() int {
+	return len(lex.data)
+}
+
+// VerifSteps reports the number of hook steps taken so far.
+func (lex *Lexer) VerifSteps() int {
+	return lex.verif.total
+}
+
+func (lex *Lexer) verifStep(kind int) {
+	v := &lex.verif
+	if v.total == 0 && verifStats {
+		verifStatLexer.Add(1)
+	}
+	v.steps[kind]++
+	v.total++
+
+	if verifStats {
+		verifStatSteps.Add(verifStepNames[kind], 1)
+		// excess over 2 steps per byte: shows how close real inputs come to the budget
+		if ex := int64(v.total - 2*len(lex.data)); ex > verifStatMax.Value() {
+			verifStatMax.Set(ex)
+		}
+	}
+
+	if verifYield > 0 && v.total%verifYield == 0 {
+		runtime.Gosched()
+	}
+
+	if v.total > VerifBudget(len(lex.data)) {
+		if verifStats {
+			verifStatAbort.Add(1)
+		}
+		panic(fmt.Sprintf("verif: step budget exceeded kind=%s cs=%d steps=%d len=%d", verifStepNames[kind], lex.cs, v.total, len(lex.data)))
+	}
+}
